@@ -48,10 +48,13 @@ fn gen_struct(rng: &mut Rng, k: usize) -> GenStruct {
     let mut fields = vec![];
     let nrun = 1 + rng.below(12) as usize;
     let mut fi = 0;
+    let mut cursor: u32 = 0; // approximate bit position (natural layout), only used to bias widths
     for _ in 0..nrun {
         let c = rng.below(100);
         if c < 12 && !is_union {
-            body.push_str(&format!("  {} m{fi};\n", rng.pick(&["char", "short", "int", "long long", "void*"])));
+            let (mt, mb) = *rng.pick(&[("char", 8u32), ("short", 16), ("int", 32), ("long long", 64), ("void*", 64), ("unsigned char", 8)]);
+            body.push_str(&format!("  {mt} m{fi};\n"));
+            cursor = (cursor + mb - 1) / mb * mb + mb;
             fi += 1;
             continue;
         }
@@ -61,7 +64,11 @@ fn gen_struct(rng: &mut Rng, k: usize) -> GenStruct {
             continue;
         }
         let maxw = if is_bool { 1 } else { tbits };
-        let width = match rng.below(10) { 0 => maxw, 1 => 1, 2 => maxw.saturating_sub(1).max(1), _ => 1 + rng.below(maxw as u64) as u32 };
+        // bits left in the field type's storage unit at the cursor: ending exactly on the boundary is a
+        // classic off-by-one spot
+        let left = tbits - cursor % tbits;
+        let width = match rng.below(10) { 0 => maxw, 1 => 1, 2 => maxw.saturating_sub(1).max(1), 3 | 4 if !is_bool && left >= 1 => left.min(maxw), _ => 1 + rng.below(maxw as u64) as u32 };
+        cursor += width;
         if c < 26 {
             body.push_str(&format!("  {cty} : {width};\n"));
             continue;
@@ -95,8 +102,11 @@ fn gen_template_struct(rng: &mut Rng, k: usize) -> GenStruct {
     let mut body = String::new();
     let mut fields = vec![];
     let n = 2 + rng.below(5) as usize;
+    let mut cursor = 0u32;
     for fi in 0..n {
-        let width = match rng.below(6) { 0 => 32, 1 => 1, _ => 1 + rng.below(31) as u32 };
+        let left = 32 - cursor % 32;
+        let width = match rng.below(6) { 0 => 32, 1 => 1, 2 | 3 => left, _ => 1 + rng.below(31) as u32 };
+        cursor += width;
         let fname = format!("b{fi}");
         body.push_str(&format!("  unsigned int {fname} : {width};\n"));
         fields.push(BfField { name: fname, cty: "unsigned int", signed: false, is_bool: false, tbits: 32, width });
